@@ -3,6 +3,7 @@ CONSTANTS
   K = 5
   N = 2
   MaxFreeze = 1
+  MaxCancel = 0
   Twin = "none"
   Record = TRUE
 INVARIANTS
